@@ -41,19 +41,29 @@ def read_log(path):
     return out
 
 
-# history prefixes (name, log directory under tests/tests/systems, number of lines kept)
-BASES_QUICK = [("heat_simple", 40), ("heat_otb_00", 45), ("heat_ufc_01", 45), ("_hvac_nuaire", 33)]
-BASES_THOROUGH = [("heat_simple", 40), ("heat_otb_00", 90), ("heat_ufc_01", 90), ("_hvac_nuaire", 33), ("heat_ufc_00", 90), ("heat_zxdavb", 90), ("_heat_trv_00", 90)]
+# history prefixes: name -> log file under tests/tests ; tiers: (name, number of lines kept, eavesdropping modes)
+LOGS = {
+    "heat_simple": "systems/heat_simple/packet.log", "heat_otb_00": "systems/heat_otb_00/packet.log", "heat_ufc_01": "systems/heat_ufc_01/packet.log",
+    "_hvac_nuaire": "systems/_hvac_nuaire/packet.log", "heat_ufc_00": "systems/heat_ufc_00/packet.log", "heat_zxdavb": "systems/heat_zxdavb/packet.log",
+    "_heat_trv_00": "systems/_heat_trv_00/packet.log", "eav_hvac": "eavesdrop_dev_class/hvac/packet.log", "eav_zone_sensors": "eavesdrop_schema/zone_sensors_003/packet.log",
+    "eav_app_cntrl": "eavesdrop_schema/app_cntrl/packet.log", "eav_trv_actuators": "eavesdrop_schema/trv_actuators/packet.log",
+}
+BASES_QUICK = [("heat_simple", 40, (False,)), ("heat_otb_00", 45, (False,)), ("heat_ufc_01", 45, (False,)), ("_hvac_nuaire", 33, (False,)), ("eav_hvac", 45, (True,))]
+BASES_THOROUGH = [("heat_simple", 40, (False, True)), ("heat_otb_00", 90, (False, True)), ("heat_ufc_01", 90, (False, True)), ("_hvac_nuaire", 33, (False, True)), ("heat_ufc_00", 90, (False,)),
+                  ("heat_zxdavb", 90, (False,)), ("_heat_trv_00", 90, (False,)), ("eav_hvac", 45, (True,)), ("eav_zone_sensors", 60, (True,)), ("eav_app_cntrl", 19, (True,)), ("eav_trv_actuators", 16, (True,))]
+
+
+def load_base(name, n):
+    p = os.path.join(repo_root(), "tests", "tests", LOGS[name])
+    return read_log(p)[:n] if os.path.exists(p) else []
 
 
 def bases(tier):
     out = []
-    for name, n in BASES_THOROUGH if tier == "thorough" else BASES_QUICK:
-        p = os.path.join(repo_root(), "tests", "tests", "systems", name, "packet.log")
-        if os.path.exists(p):
-            ls = read_log(p)[:n]
-            if ls:
-                out.append((name, ls))
+    for name, n, eavs in BASES_THOROUGH if tier == "thorough" else BASES_QUICK:
+        ls = load_base(name, n)
+        if ls:
+            out.append((name, ls, eavs))
     return out
 
 
@@ -306,8 +316,8 @@ def queries(tier):
 
     thorough = tier == "thorough"
     qs = []
-    for bname, lines in bases(tier):
-        for eav in ((False, True) if thorough else (False,)):
+    for bname, lines, eavs in bases(tier):
+        for eav in eavs:
             for mut in (False, True):
                 for i, off, w in candidates(lines, thorough):
                     f = lines[i][1]
@@ -320,11 +330,7 @@ def queries(tier):
 
 def replay(item):
     prm = item["params"]
-    tier_lines = None
-    for name, n in BASES_THOROUGH:
-        if name == prm["base"]:
-            p = os.path.join(repo_root(), "tests", "tests", "systems", name, "packet.log")
-            tier_lines = read_log(p)[: prm["n"]]
+    tier_lines = load_base(prm["base"], prm["n"])
     dtm, frame = tier_lines[prm["idx"]]
     head, pay = frame[:50], frame[50:]
     extra = head + pay[: prm["off"]] + item["cex"].get("w", "") + pay[prm["off"] + prm["w"]:]
